@@ -48,8 +48,19 @@ Definition g_childb : ghost :=
   {| g_refs := fun _ => 0%nat; g_excl := fun _ => false; g_free := fun _ => false; g_fen := false;
      g_bor := fun b => Nat.eqb b b0 |}.
 Definition g_init (t : nat) : ghost := if bof t then g_childb else g_child (kof t).
-Definition g_lendout (g : ghost) : ghost :=
-  {| g_refs := g_refs g; g_excl := setf (g_excl g) b0 false; g_free := g_free g; g_fen := g_fen g; g_bor := g_bor g |}.
+(* lending: the handle that is lent is set aside (one reference fewer to work with) and the lender may itself read and
+   clone through it like a borrower; further loans of the same handle change nothing; when the last loan ends the handle
+   is the lender's own again *)
+Definition g_hide (g : ghost) : ghost :=
+  {| g_refs := setf (g_refs g) b0 (g_refs g b0 - 1)%nat; g_excl := setf (g_excl g) b0 false; g_free := g_free g; g_fen := g_fen g;
+     g_bor := setf (g_bor g) b0 true |}.
+Definition g_unhide (g : ghost) : ghost :=
+  {| g_refs := setf (g_refs g) b0 (S (g_refs g b0)); g_excl := g_excl g; g_free := g_free g; g_fen := g_fen g;
+     g_bor := setf (g_bor g) b0 false |}.
+Definition g_lendout (lent : list nat) (g : ghost) : ghost := match lent with [] => g_hide g | _ => g end.
+Definition g_joinb (lent' : list nat) (g : ghost) : ghost := match lent' with [] => g_unhide g | _ => g end.
+(* the references a thread's machine state counts beyond its ghost: the lent handle *)
+Definition hid (lent : list nat) : nat := match lent with [] => 0 | _ => 1 end.
 
 (* a read of b0: by a reference holder, by the freeing thread after its fence, or through a borrowed handle *)
 Definition read_step (s : st) (t : nat) (s' : st) : Prop :=
@@ -122,14 +133,15 @@ Inductive cstep : cfg -> cfg -> Prop :=
     t < length (tc cf) -> started (getth (ms cf) t) = true ->
     cur (gettc cf t) = Ret tt -> rest (gettc cf t) = PLend ch :: r ->
     step (ms cf) t (ALend ch) = Ok s' ->
-    cstep cf {| ms := s'; tc := upd (tc cf) t {| cur := Ret tt; rest := r; gh := g_lendout (gh (gettc cf t));
+    cstep cf {| ms := s'; tc := upd (tc cf) t {| cur := Ret tt; rest := r; gh := g_lendout (lt (gettc cf t)) (gh (gettc cf t));
                                                 lt := ch :: lt (gettc cf t) |} |}
 | C_joinb cf t ch r s' :
     t < length (tc cf) -> started (getth (ms cf) t) = true ->
     cur (gettc cf t) = Ret tt -> rest (gettc cf t) = PJoinB ch :: r ->
     finished (gettc cf ch) ->                  (* the scope waits for the scoped thread to run to completion *)
     step (ms cf) t (AJoinB ch) = Ok s' ->
-    cstep cf {| ms := s'; tc := upd (tc cf) t {| cur := Ret tt; rest := r; gh := gh (gettc cf t);
+    cstep cf {| ms := s'; tc := upd (tc cf) t {| cur := Ret tt; rest := r;
+                                                gh := g_joinb (List.remove Nat.eq_dec ch (lt (gettc cf t))) (gh (gettc cf t));
                                                 lt := List.remove Nat.eq_dec ch (lt (gettc cf t)) |} |}.
 
 Inductive csteps : cfg -> cfg -> Prop :=
@@ -137,50 +149,30 @@ Inductive csteps : cfg -> cfg -> Prop :=
 | cs_step cf cf1 cf2 : cstep cf cf1 -> csteps cf1 cf2 -> csteps cf cf2.
 
 (* ---------- typing ---------- *)
-(* what a thread may run while its handle is lent (&handle is shared, so no &mut method on it): on the shared buffer it
-   only reads, reads the header and clones; anything on its private buffers *)
-Fixpoint ro (c : cmd unit) : Prop :=
-  match c with
-  | Ret _ | Unreachable => True
-  | Alloc _ k => forall x, ro (k x)
-  | Realloc b _ _ k => b <> b0 /\ forall ok, ro (k ok)
-  | Dealloc b _ k => b <> b0 /\ ro k
-  | HdrInit b _ k => b <> b0 /\ ro k
-  | HdrCap _ k => forall v, ro (k v)
-  | Rmw b true _ k => forall v, ro (k v)
-  | Rmw b false _ k => b <> b0 /\ forall v, ro (k v)
-  | Load b _ k => b <> b0 /\ forall v, ro (k v)
-  | Fence _ k => ro k
-  | Read _ _ _ k => forall bs, ro (k bs)
-  | Write (PHeap b) _ _ k => b <> b0 /\ ro k
-  | Write (PStatic _) _ _ k => ro k
-  | Move (PHeap b) _ _ _ k => b <> b0 /\ ro k
-  | Move (PStatic _) _ _ _ k => ro k
-  end.
-
-(* [lent]: the scoped threads currently borrowing from this thread; while there are any, the thread only lends again,
-   joins, and runs read-only operations ([ro]) *)
+(* [lent]: the scoped threads currently borrowing from this thread; while there are any, the lent handle is set aside:
+   the thread works with the ghost [g_hide] leaves it — every other handle it holds, and reading / cloning through the
+   lent one — and does not spawn *)
 Fixpoint prog_ok (lent : list nat) (ps : list pitem) (g : ghost) : Prop :=
   match ps with
   | [] => lent = [] /\ g_refs g b0 = 0%nat /\ g_free g b0 = false      (* a thread ends holding nothing and owing nothing *)
-  | POp c :: r => (lent = [] \/ ro c) /\ okc c g (fun _ g' => prog_ok lent r g')
+  | POp c :: r => okc c g (fun _ g' => prog_ok lent r g')
   | PSpawn ch k :: r => lent = [] /\ (k <= g_refs g b0)%nat /\ kof ch = k /\ bof ch = false /\ prog_ok [] r (g_give g k)
   | PJoin ch :: r => prog_ok lent r g
-  | PLend ch :: r => (0 < g_refs g b0)%nat /\ g_bor g b0 = false /\ bof ch = true /\ prog_ok (ch :: lent) r (g_lendout g)
-  | PJoinB ch :: r => In ch lent /\ prog_ok (List.remove Nat.eq_dec ch lent) r g
+  | PLend ch :: r => (lent = [] -> (0 < g_refs g b0)%nat /\ g_bor g b0 = false) /\ bof ch = true /\ prog_ok (ch :: lent) r (g_lendout lent g)
+  | PJoinB ch :: r => In ch lent /\ prog_ok (List.remove Nat.eq_dec ch lent) r (g_joinb (List.remove Nat.eq_dec ch lent) g)
   end.
 
-Definition agree (x : th) (g : ghost) : Prop :=
-  refs x = g_refs g b0 /\ excl x = g_excl g b0 /\ mustfree x = g_free g b0 /\ (g_fen g = true -> cle (pend x) (clk x)).
+Definition agreeh (h : nat) (x : th) (g : ghost) : Prop :=
+  refs x = g_refs g b0 + h /\ excl x = g_excl g b0 /\ mustfree x = g_free g b0 /\ (g_fen g = true -> cle (pend x) (clk x)).
+Definition agree := agreeh 0.
 
 Record WT (cf : cfg) : Prop := {
   wt_inv : Inv (ms cf);
   wt_len : length (tc cf) = length (ths (ms cf));
   wt_started : forall t, t < length (tc cf) -> started (getth (ms cf) t) = true ->
-      agree (getth (ms cf) t) (gh (gettc cf t))
+      agreeh (hid (lt (gettc cf t))) (getth (ms cf) t) (gh (gettc cf t))
       /\ okc (cur (gettc cf t)) (gh (gettc cf t)) (fun _ g' => prog_ok (lt (gettc cf t)) (rest (gettc cf t)) g')
-      /\ (lt (gettc cf t) <> [] -> ro (cur (gettc cf t)))
-      /\ (g_bor (gh (gettc cf t)) b0 = true -> lend (getth (ms cf) t) <> 0 \/ finished (gettc cf t));
+      /\ (g_bor (gh (gettc cf t)) b0 = true -> lend (getth (ms cf) t) <> 0 \/ lt (gettc cf t) <> [] \/ finished (gettc cf t));
   wt_unstarted : forall t, t < length (tc cf) -> started (getth (ms cf) t) = false ->
       cur (gettc cf t) = Ret tt /\ gh (gettc cf t) = g_init t /\ lt (gettc cf t) = []
       /\ prog_ok [] (rest (gettc cf t)) (g_init t) /\ lend (getth (ms cf) t) = 0;
@@ -197,31 +189,31 @@ Proof. unfold setf. rewrite Nat.eqb_refl. reflexivity. Qed.
 Lemma setf_ne {A} (f : bufid -> A) b b' x : b <> b' -> setf f b x b' = f b'.
 Proof. unfold setf. intros H. apply not_eq_sym in H. apply Nat.eqb_neq in H. rewrite H. reflexivity. Qed.
 
-Lemma agree_other x g g' :
-  agree x g -> g_refs g' b0 = g_refs g b0 -> g_excl g' b0 = g_excl g b0 -> g_free g' b0 = g_free g b0 ->
-  (g_fen g' = true -> g_fen g = true) -> agree x g'.
-Proof. intros (A1 & A2 & A3 & A4) E1 E2 E3 E4. unfold agree. rewrite E1, E2, E3. repeat split; auto. Qed.
+Lemma agree_other h x g g' :
+  agreeh h x g -> g_refs g' b0 = g_refs g b0 -> g_excl g' b0 = g_excl g b0 -> g_free g' b0 = g_free g b0 ->
+  (g_fen g' = true -> g_fen g = true) -> agreeh h x g'.
+Proof. intros (A1 & A2 & A3 & A4) E1 E2 E3 E4. unfold agreeh. rewrite E1, E2, E3. repeat split; auto. Qed.
 
-Lemma agree_same_local x x' g : agree x g -> same_local x x' -> agree x' g.
+Lemma agree_same_local h x x' g : agreeh h x g -> same_local x x' -> agreeh h x' g.
 Proof.
-  intros (A1 & A2 & A3 & A4) (L1 & L2 & L3 & L4 & L5). unfold agree. rewrite L1, L2, L3, L4.
+  intros (A1 & A2 & A3 & A4) (L1 & L2 & L3 & L4 & L5). unfold agreeh. rewrite L1, L2, L3, L4.
   repeat split; auto. intros Hf. eapply cle_trans; [apply A4; exact Hf|exact L5].
 Qed.
 
 (* what a sound event step establishes *)
-Definition estep_post (t : nat) (s : st) (s' : st) (c' : cmd unit) (g' : ghost) (Q : unit -> ghost -> Prop) : Prop :=
-  Inv s' /\ okc c' g' Q /\ agree (getth s' t) g' /\ length (ths s') = length (ths s)
+Definition estep_post (h t : nat) (s : st) (s' : st) (c' : cmd unit) (g' : ghost) (Q : unit -> ghost -> Prop) : Prop :=
+  Inv s' /\ okc c' g' Q /\ agreeh h (getth s' t) g' /\ length (ths s') = length (ths s)
   /\ started (getth s' t) = true
   /\ (forall u, u <> t -> getth s' u = getth s u)
   /\ (forall u, lend (getth s' u) = lend (getth s u)).
 
-Lemma post_silent t s c' g' Q :
-  Inv s -> started (getth s t) = true -> okc c' g' Q -> agree (getth s t) g' -> estep_post t s s c' g' Q.
+Lemma post_silent h t s c' g' Q :
+  Inv s -> started (getth s t) = true -> okc c' g' Q -> agreeh h (getth s t) g' -> estep_post h t s s c' g' Q.
 Proof. intros. unfold estep_post. auto 10. Qed.
 
-Lemma post_mach t s a s' c' g' Q :
+Lemma post_mach h t s a s' c' g' Q :
   Inv s -> step s t a = Ok s' -> second a = None ->
-  okc c' g' Q -> (act_spec s t a s' -> agree (getth s' t) g') -> estep_post t s s' c' g' Q.
+  okc c' g' Q -> (act_spec s t a s' -> agreeh h (getth s' t) g') -> estep_post h t s s' c' g' Q.
 Proof.
   intros I Hs Hns Hok Hag. destruct (step_spec s t a s' Hs) as (Ht & Hst & Hst' & Hlen & Hoth & Hlendt & Hspec).
   assert (Hoth' : forall u, u <> t -> getth s' u = getth s u) by (intros u Hu; apply Hoth; [exact Hu|rewrite Hns; discriminate]).
@@ -230,8 +222,8 @@ Proof.
   intros u. destruct (Nat.eq_dec u t) as [->|Hu]; [exact Hlendt|rewrite Hoth' by exact Hu; reflexivity].
 Qed.
 
-Lemma read_post t s s' c' g Q :
-  Inv s -> read_step s t s' -> okc c' g Q -> agree (getth s t) g -> estep_post t s s' c' g Q.
+Lemma read_post h t s s' c' g Q :
+  Inv s -> read_step s t s' -> okc c' g Q -> agreeh h (getth s t) g -> estep_post h t s s' c' g Q.
 Proof.
   intros I [Hs|[Hs|Hs]] Hok Hag.
   - eapply post_mach; [exact I|exact Hs|reflexivity|exact Hok|]. intros (_ & Hl). eapply agree_same_local; eauto.
@@ -239,16 +231,16 @@ Proof.
   - eapply post_mach; [exact I|exact Hs|reflexivity|exact Hok|]. intros Hl. eapply agree_same_local; eauto.
 Qed.
 
-Lemma write_post t s s' c' g Q :
-  Inv s -> step s t AWrite = Ok s' -> okc c' g Q -> agree (getth s t) g -> estep_post t s s' c' g Q.
+Lemma write_post h t s s' c' g Q :
+  Inv s -> step s t AWrite = Ok s' -> okc c' g Q -> agreeh h (getth s t) g -> estep_post h t s s' c' g Q.
 Proof.
   intros I Hs Hok Hag. eapply post_mach; [exact I|exact Hs|reflexivity|exact Hok|]. intros (_ & Hl). eapply agree_same_local; eauto.
 Qed.
 
 (* ---------- every event step preserves the typing ---------- *)
-Lemma estep_sound t s c g s' c' g' (Q : unit -> ghost -> Prop) :
-  Inv s -> started (getth s t) = true -> agree (getth s t) g -> okc c g Q -> estep t s c g s' c' g' ->
-  estep_post t s s' c' g' Q.
+Lemma estep_sound h t s c g s' c' g' (Q : unit -> ghost -> Prop) :
+  Inv s -> started (getth s t) = true -> agreeh h (getth s t) g -> okc c g Q -> estep t s c g s' c' g' ->
+  estep_post h t s s' c' g' Q.
 Proof.
   intros I Hst Hag Hok Hstep. destruct Hstep; cbn [okc] in Hok.
   - (* alloc refused *) destruct Hok as (K1 & _). apply post_silent; [exact I|exact Hst|exact K1|exact Hag].
@@ -260,7 +252,7 @@ Proof.
     eapply agree_other; [exact Hag| | | |]; unfold g_dealloc; cbn [g_refs g_excl g_free g_fen]; rewrite ?setf_ne by assumption; auto.
   - (* dealloc b0 *) destruct Hok as (_ & _ & K3). eapply post_mach; [exact I|eassumption|reflexivity|exact K3|].
     intros (_ & R1 & R2 & R3 & R4 & R5). destruct Hag as (A1 & A2 & A3 & A4).
-    unfold agree, g_dealloc; cbn [g_refs g_excl g_free g_fen]. rewrite setf_eq. rewrite R1, R2, R3, R4.
+    unfold agreeh, g_dealloc; cbn [g_refs g_excl g_free g_fen]. rewrite setf_eq. rewrite R1, R2, R3, R4.
     split; [exact A1|]. split; [|split; [reflexivity|]].
     + (* excl: the freeing thread holds no reference, so it was not exclusive *)
       destruct (g_excl g b0) eqn:He; [|reflexivity]. exfalso.
@@ -277,18 +269,18 @@ Proof.
     eapply agree_other; [exact Hag| | | |]; unfold g_inc; cbn [g_refs g_excl g_free g_fen]; rewrite ?setf_ne by assumption; auto. discriminate.
   - (* inc b0 *) destruct Hok as (_ & K2). eapply post_mach; [exact I|eassumption|reflexivity|apply K2|].
     intros (_ & R1 & R2 & R3). destruct Hag as (A1 & A2 & A3 & A4).
-    unfold agree, g_inc; cbn [g_refs g_excl g_free g_fen]. rewrite !setf_eq. rewrite R1, R2, R3, A1.
+    unfold agreeh, g_inc; cbn [g_refs g_excl g_free g_fen]. rewrite !setf_eq. rewrite R1, R2, R3, A1.
     split; [reflexivity|]. split; [reflexivity|]. split; [exact A3|discriminate].
   - (* inc b0 through a borrowed handle *) destruct Hok as (_ & K2). eapply post_mach; [exact I|eassumption|reflexivity|apply K2|].
     intros (R1 & R2 & R3). destruct Hag as (A1 & A2 & A3 & A4).
-    unfold agree, g_inc; cbn [g_refs g_excl g_free g_fen]. rewrite !setf_eq. rewrite R1, R2, R3, A1.
+    unfold agreeh, g_inc; cbn [g_refs g_excl g_free g_fen]. rewrite !setf_eq. rewrite R1, R2, R3, A1.
     split; [reflexivity|]. split; [reflexivity|]. split; [exact A3|discriminate].
   - (* dec, other *) destruct Hok as (_ & _ & _ & K2). apply post_silent; [exact I|exact Hst|apply K2|].
     eapply agree_other; [exact Hag| | | |]; unfold g_dec; cbn [g_refs g_excl g_free g_fen]; rewrite ?setf_ne by assumption; auto. discriminate.
-  - (* dec b0 *) destruct Hok as (_ & _ & _ & K2). eapply post_mach; [exact I|eassumption|reflexivity|apply K2|].
+  - (* dec b0 *) destruct Hok as (K0 & _ & _ & K2). eapply post_mach; [exact I|eassumption|reflexivity|apply K2|].
     intros (_ & _ & R1 & R2 & R3). destruct Hag as (A1 & A2 & A3 & A4).
-    unfold agree, g_dec; cbn [g_refs g_excl g_free g_fen]. rewrite !setf_eq. rewrite R1, R2, R3, A1, of_nat_eqb_1.
-    split; [reflexivity|]. split; [reflexivity|]. split; [reflexivity|discriminate].
+    unfold agreeh, g_dec; cbn [g_refs g_excl g_free g_fen]. rewrite !setf_eq. rewrite R1, R2, R3, A1, of_nat_eqb_1.
+    split; [lia|]. split; [reflexivity|]. split; [reflexivity|discriminate].
   - (* load, other *) destruct Hok as (_ & _ & K2). apply post_silent; [exact I|exact Hst|apply K2|].
     eapply agree_other; [exact Hag| | | |]; unfold g_load; cbn [g_refs g_excl g_free g_fen]; rewrite ?setf_ne by assumption; auto.
   - (* load b0 *) destruct Hok as (_ & _ & K2). eapply post_mach; [exact I|eassumption|reflexivity|apply K2|].
@@ -296,12 +288,12 @@ Proof.
     match goal with Hn : nth_error _ _ = Some ?mm |- _ =>
       tryif constr_eq mm m' then fail else (assert (Em : m' = mm) by congruence) end. subst m'.
     destruct Hag as (A1 & A2 & A3 & A4).
-    unfold agree, g_load; cbn [g_refs g_excl g_free g_fen]. rewrite !setf_eq. rewrite R1, R2, R3, R4, A1, A2, of_nat_eqb_1.
+    unfold agreeh, g_load; cbn [g_refs g_excl g_free g_fen]. rewrite !setf_eq. rewrite R1, R2, R3, R4, A1, A2, of_nat_eqb_1.
     split; [reflexivity|]. split; [reflexivity|]. split; [exact A3|].
     intros Hf. eapply cle_trans; [apply A4; exact Hf|exact R5].
   - (* acquire fence *) eapply post_mach; [exact I|eassumption|reflexivity|exact Hok|].
     intros (R1 & R2 & R3 & R4 & R5 & R6). destruct Hag as (A1 & A2 & A3 & A4).
-    unfold agree, g_fence; cbn [g_refs g_excl g_free g_fen]. rewrite R1, R2, R3, R4.
+    unfold agreeh, g_fence; cbn [g_refs g_excl g_free g_fen]. rewrite R1, R2, R3, R4.
     split; [exact A1|]. split; [exact A2|]. split; [exact A3|]. intros _. exact R6.
   - (* weaker fence: nothing *) apply post_silent; [exact I|exact Hst|exact Hok|].
     eapply agree_other; [exact Hag| | | |]; unfold g_fence; cbn [g_refs g_excl g_free g_fen]; auto.
@@ -319,10 +311,6 @@ Qed.
 Lemma estep_bor t s c g s' c' g' : estep t s c g s' c' g' -> g_bor g' = g_bor g.
 Proof. intros H. destruct H; reflexivity. Qed.
 
-(* the continuation of a read-only command is read-only *)
-Lemma ro_estep t s c g s' c' g' : estep t s c g s' c' g' -> ro c -> ro c'.
-Proof. intros H R. destruct H; cbn [ro] in R; try (destruct R as (_ & R)); auto. Qed.
-
 (* ---------- configurations ---------- *)
 Lemma gettc_upd_eq cf t x s' : t < length (tc cf) -> gettc {| ms := s'; tc := upd (tc cf) t x |} t = x.
 Proof. intros H. unfold gettc. cbn [tc]. apply nth_upd_eq. exact H. Qed.
@@ -331,10 +319,9 @@ Proof. intros H. unfold gettc. cbn [tc]. apply nth_upd_ne. exact H. Qed.
 
 Lemma WT_update cf s' t x :
   WT cf -> Inv s' -> length (ths s') = length (ths (ms cf)) -> t < length (tc cf) ->
-  started (getth s' t) = true -> agree (getth s' t) (gh x) ->
+  started (getth s' t) = true -> agreeh (hid (lt x)) (getth s' t) (gh x) ->
   okc (cur x) (gh x) (fun _ g' => prog_ok (lt x) (rest x) g') ->
-  (lt x <> [] -> ro (cur x)) ->
-  (g_bor (gh x) b0 = true -> lend (getth s' t) <> 0 \/ finished x) ->
+  (g_bor (gh x) b0 = true -> lend (getth s' t) <> 0 \/ lt x <> [] \/ finished x) ->
   (forall u, u <> t ->
      (* untouched *)
      getth s' u = getth (ms cf) u
@@ -343,13 +330,13 @@ Lemma WT_update cf s' t x :
          /\ (g_bor (g_init u) b0 = true -> lend (getth s' u) <> 0))
      (* a scoped thread that has run to completion and is joined: only its lend field is reset *)
      \/ (started (getth (ms cf) u) = true /\ started (getth s' u) = true /\ finished (gettc cf u)
-         /\ (forall g, agree (getth (ms cf) u) g -> agree (getth s' u) g))) ->
+         /\ (forall h g, agreeh h (getth (ms cf) u) g -> agreeh h (getth s' u) g))) ->
   (forall u, started (getth s' u) = false -> lend (getth s' u) = 0) ->
   (forall u v, lend (getth s' u) = S v <->
                (v < length (tc cf) /\ In u (lt (gettc {| ms := s'; tc := upd (tc cf) t x |} v)))) ->
   WT {| ms := s'; tc := upd (tc cf) t x |}.
 Proof.
-  intros [W1 W2 W3 W4 W5] I' Hlen Ht Hst Hag Hok Hlt Hbor Hoth Hun Hloans. split; cbn [ms].
+  intros [W1 W2 W3 W4 W5] I' Hlen Ht Hst Hag Hok Hbor Hoth Hun Hloans. split; cbn [ms].
   - exact I'.
   - cbn [tc]. rewrite upd_length. congruence.
   - intros u Hu Hsu. cbn [tc] in Hu. rewrite upd_length in Hu.
@@ -358,9 +345,9 @@ Proof.
     + rewrite gettc_upd_ne by exact Hne. destruct (Hoth u Hne) as [E|[(E1 & E2 & E3 & E4)|(E1 & E2 & E3 & E4)]].
       * rewrite E in *. apply W3; assumption.
       * destruct (W4 u Hu E1) as (C1 & C2 & C3 & C4 & C5). rewrite C1, C2, C3. split; [exact E3|]. split; [cbn [okc]; exact C4|].
-        split; [intros Hx; contradiction|]. intros Hb. left. apply E4. exact Hb.
-      * destruct (W3 u Hu E1) as (A & B & C & D). split; [apply E4; exact A|]. split; [exact B|]. split; [exact C|].
-        intros _. right. exact E3.
+        intros Hb. left. apply E4. exact Hb.
+      * destruct (W3 u Hu E1) as (A & B & D). split; [apply E4; exact A|]. split; [exact B|].
+        intros _. right. right. exact E3.
   - intros u Hu Hsu. cbn [tc] in Hu. rewrite upd_length in Hu.
     destruct (Nat.eq_dec u t) as [->|Hne]; [congruence|].
     rewrite gettc_upd_ne by exact Hne. destruct (Hoth u Hne) as [E|[(E1 & E2 & _)|(E1 & E2 & _)]]; [|congruence|congruence].
@@ -394,27 +381,26 @@ Proof.
   destruct Hs as [cf t s' c' g' Ht Hst He|cf t c r Ht Hst Hc Hr|cf t ch k r s' Ht Hst Hc Hr Hm|cf t ch r s' Ht Hst Hc Hr Hm
                  |cf t ch r s' Ht Hst Hc Hr Hm|cf t ch r s' Ht Hst Hc Hr Hfin Hm].
   - (* an event *)
-    destruct (W3 t Ht Hst) as (Hag & Hok & Hlt & Hbor).
-    destruct (estep_sound t _ _ _ _ _ _ _ W1 Hst Hag Hok He) as (I' & Hok' & Hag' & Hlen & Hst' & Hoth & Hld).
-    apply WT_update; [exact W|exact I'|exact Hlen|exact Ht|exact Hst'|exact Hag'|cbn [cur gh lt rest]; exact Hok'| | | | |].
-    + cbn [lt cur]. intros Hx. eapply ro_estep; [exact He|apply Hlt; exact Hx].
-    + cbn [gh]. rewrite (estep_bor _ _ _ _ _ _ _ He). rewrite Hld. intros Hb. destruct (Hbor Hb) as [Hl|(Hf & _)]; [left; exact Hl|].
+    destruct (W3 t Ht Hst) as (Hag & Hok & Hbor).
+    destruct (estep_sound _ t _ _ _ _ _ _ _ W1 Hst Hag Hok He) as (I' & Hok' & Hag' & Hlen & Hst' & Hoth & Hld).
+    apply WT_update; [exact W|exact I'|exact Hlen|exact Ht|exact Hst'|exact Hag'|cbn [cur gh lt rest]; exact Hok'| | | |].
+    + cbn [gh lt]. rewrite (estep_bor _ _ _ _ _ _ _ He). rewrite Hld. intros Hb.
+      destruct (Hbor Hb) as [Hl|[Hl|(Hf & _)]]; [left; exact Hl|right; left; exact Hl|].
       rewrite Hf in He. inversion He.
     + intros u Hu. left. apply Hoth. exact Hu.
     + eapply unstarted_same; [exact W|exact Hlen|]. intros u Hu. rewrite Hld. split; [|reflexivity].
       destruct (Nat.eq_dec u t) as [->|Hne]; [congruence|]. rewrite Hoth in Hu by exact Hne. exact Hu.
     + apply loans_same; [exact W|exact Ht|exact Hld|reflexivity].
   - (* next operation *)
-    destruct (W3 t Ht Hst) as (Hag & Hok & Hlt & Hbor). rewrite Hc, Hr in Hok. cbn [okc prog_ok] in Hok. destruct Hok as (Hnil & Hok).
-    apply WT_update; [exact W|exact W1|reflexivity|exact Ht|exact Hst|exact Hag| | | | | |].
+    destruct (W3 t Ht Hst) as (Hag & Hok & Hbor). rewrite Hc, Hr in Hok. cbn [okc prog_ok] in Hok.
+    apply WT_update; [exact W|exact W1|reflexivity|exact Ht|exact Hst|exact Hag| | | | |].
     + cbn [cur gh lt rest]. exact Hok.
-    + cbn [lt cur]. intros Hx. destruct Hnil as [Hnil|Hro]; [contradiction|exact Hro].
-    + cbn [gh]. intros Hb. destruct (Hbor Hb) as [Hl|(_ & Hf)]; [left; exact Hl|]. rewrite Hr in Hf. discriminate.
+    + cbn [gh lt]. intros Hb. destruct (Hbor Hb) as [Hl|[Hl|(_ & Hf)]]; [left; exact Hl|right; left; exact Hl|]. rewrite Hr in Hf. discriminate.
     + intros u Hu. left. reflexivity.
     + eapply unstarted_same; [exact W|reflexivity|]. auto.
     + apply loans_same; [exact W|exact Ht|reflexivity|reflexivity].
   - (* spawn *)
-    destruct (W3 t Ht Hst) as (Hag & Hok & Hlt & Hbor). rewrite Hc, Hr in Hok. cbn [okc prog_ok] in Hok.
+    destruct (W3 t Ht Hst) as (Hag & Hok & Hbor). rewrite Hc, Hr in Hok. cbn [okc prog_ok] in Hok.
     destruct Hok as (Hnil & Hk & Hkof & Hbof & Hrest).
     destruct (step_spec _ _ _ _ Hm) as (_ & _ & Hst' & Hlen & Hoth & Hlendt & Hspec). cbn [act_spec] in Hspec.
     destruct Hspec as (Hct & _ & Hsc & Hcl & R1 & R2 & R3 & R4 & R5 & C1 & C2 & C3 & C4 & C5 & C6).
@@ -423,18 +409,18 @@ Proof.
     assert (Hld : forall u, lend (getth s' u) = lend (getth (ms cf) u)).
     { intros u. destruct (Nat.eq_dec u t) as [->|Hut]; [exact Hlendt|].
       destruct (Nat.eq_dec u ch) as [->|Huc]; [congruence|]. rewrite Hoth; [reflexivity|exact Hut|cbn [second]; congruence]. }
-    apply WT_update; [exact W| |exact Hlen|exact Ht|exact Hst'| | | | | | |].
+    apply WT_update; [exact W| |exact Hlen|exact Ht|exact Hst'| | | | | |].
     + eapply pres; eauto.
-    + cbn [gh]. destruct Hag as (A1 & A2 & A3 & A4). unfold agree, g_give; cbn [g_refs g_excl g_free g_fen].
-      rewrite !setf_eq. rewrite R1, R2, R3, R4, A1. split; [reflexivity|]. split; [reflexivity|]. split; [exact A3|].
+    + cbn [gh lt]. destruct Hag as (A1 & A2 & A3 & A4). rewrite Hnil in A1 |- *. cbn [hid] in A1 |- *.
+      unfold agreeh, g_give; cbn [g_refs g_excl g_free g_fen].
+      rewrite !setf_eq. rewrite R1, R2, R3, R4. split; [lia|]. split; [reflexivity|]. split; [exact A3|].
       intros Hf. eapply cle_trans; [apply A4; exact Hf|exact R5].
     + cbn [cur gh lt rest okc]. rewrite Hnil. exact Hrest.
-    + cbn [lt]. rewrite Hnil. intros Hx. contradiction.
-    + cbn [gh]. unfold g_give. cbn [g_bor]. rewrite Hlendt. intros Hb. destruct (Hbor Hb) as [Hl|(_ & Hf)]; [left; exact Hl|].
-      rewrite Hr in Hf. discriminate.
+    + cbn [gh lt]. unfold g_give. cbn [g_bor]. rewrite Hlendt. intros Hb.
+      destruct (Hbor Hb) as [Hl|[Hl|(_ & Hf)]]; [left; exact Hl|right; left; exact Hl|]. rewrite Hr in Hf. discriminate.
     + intros u Hu. destruct (Nat.eq_dec u ch) as [->|Hne].
       * right. left. split; [exact Hsc|]. split; [exact C5|]. unfold g_init. rewrite Hbof. split.
-        -- unfold agree, g_child; cbn [g_refs g_excl g_free g_fen]. rewrite Nat.eqb_refl. rewrite C1, C2, C3, Hkof. repeat split; auto. discriminate.
+        -- unfold agree, agreeh, g_child; cbn [g_refs g_excl g_free g_fen]. rewrite Nat.eqb_refl. rewrite C1, C2, C3, Hkof. repeat split; auto. discriminate.
         -- unfold g_child. cbn [g_bor]. discriminate.
       * left. apply Hoth; [exact Hu|]. cbn [second]. intros [= E]. apply Hne. symmetry. exact E.
     + eapply unstarted_same; [exact W|exact Hlen|]. intros u Hu. split; [|apply Hld].
@@ -442,37 +428,44 @@ Proof.
       rewrite Hoth in Hu; [exact Hu|exact Hut|cbn [second]; congruence].
     + apply loans_same; [exact W|exact Ht|exact Hld|reflexivity].
   - (* join *)
-    destruct (W3 t Ht Hst) as (Hag & Hok & Hlt & Hbor). rewrite Hc, Hr in Hok. cbn [okc prog_ok] in Hok.
+    destruct (W3 t Ht Hst) as (Hag & Hok & Hbor). rewrite Hc, Hr in Hok. cbn [okc prog_ok] in Hok.
     destruct (step_spec _ _ _ _ Hm) as (_ & _ & Hst' & Hlen & Hoth & Hlendt & Hspec). cbn [act_spec] in Hspec.
     assert (Hld : forall u, lend (getth s' u) = lend (getth (ms cf) u)).
     { intros u. destruct (Nat.eq_dec u t) as [->|Hut]; [exact Hlendt|]. rewrite Hoth; [reflexivity|exact Hut|cbn [second]; discriminate]. }
-    apply WT_update; [exact W| |exact Hlen|exact Ht|exact Hst'| | | | | | |].
+    apply WT_update; [exact W| |exact Hlen|exact Ht|exact Hst'| | | | | |].
     + eapply pres; eauto.
-    + cbn [gh]. eapply agree_same_local; eauto.
+    + cbn [gh lt]. eapply agree_same_local; eauto.
     + cbn [cur gh lt rest okc]. exact Hok.
-    + cbn [lt cur ro]. intros _. exact I.
-    + cbn [gh]. rewrite Hlendt. intros Hb. destruct (Hbor Hb) as [Hl|(_ & Hf)]; [left; exact Hl|]. rewrite Hr in Hf. discriminate.
+    + cbn [gh lt]. rewrite Hlendt. intros Hb. destruct (Hbor Hb) as [Hl|[Hl|(_ & Hf)]]; [left; exact Hl|right; left; exact Hl|]. rewrite Hr in Hf. discriminate.
     + intros u Hu. left. apply Hoth; [exact Hu|]. cbn [second]. discriminate.
     + eapply unstarted_same; [exact W|exact Hlen|]. intros u Hu. split; [|apply Hld].
       destruct (Nat.eq_dec u t) as [->|Hut]; [congruence|]. rewrite Hoth in Hu; [exact Hu|exact Hut|cbn [second]; discriminate].
     + apply loans_same; [exact W|exact Ht|exact Hld|reflexivity].
   - (* lend *)
-    destruct (W3 t Ht Hst) as (Hag & Hok & Hlt & Hbor). rewrite Hc, Hr in Hok. cbn [okc prog_ok] in Hok.
-    destruct Hok as (Hrf & Hnb & Hbof & Hrest).
+    destruct (W3 t Ht Hst) as (Hag & Hok & Hbor). rewrite Hc, Hr in Hok. cbn [okc prog_ok] in Hok.
+    destruct Hok as (Hfirst & Hbof & Hrest).
     destruct (step_spec _ _ _ _ Hm) as (_ & _ & Hst' & Hlen & Hoth & Hlendt & Hspec). cbn [act_spec] in Hspec.
     destruct (lend_spec _ _ _ _ Hm) as (Hct & Hcl & Hsc & L1 & L2 & L3 & L4 & L5).
     destruct Hspec as (R1 & R2 & R3 & R4 & R5).
-    apply WT_update; [exact W| |exact Hlen|exact Ht|exact Hst'| | | | | | |].
+    apply WT_update; [exact W| |exact Hlen|exact Ht|exact Hst'| | | | | |].
     + eapply pres; eauto.
-    + cbn [gh]. destruct Hag as (A1 & A2 & A3 & A4). unfold agree, g_lendout; cbn [g_refs g_excl g_free g_fen].
-      rewrite !setf_eq. rewrite R1, R2, R3, R4. split; [exact A1|]. split; [reflexivity|]. split; [exact A3|].
-      intros Hf. eapply cle_trans; [apply A4; exact Hf|exact R5].
+    + cbn [gh lt hid]. destruct Hag as (A1 & A2 & A3 & A4).
+      destruct (lt (gettc cf t)) as [|u0 l0] eqn:Elt; cbn [g_lendout hid] in *.
+      * (* the first loan: the lent handle is set aside *)
+        destruct (Hfirst eq_refl) as (Hrf & Hnb). unfold agreeh, g_hide; cbn [g_refs g_excl g_free g_fen].
+        rewrite !setf_eq. rewrite R1, R2, R3, R4. split; [lia|]. split; [reflexivity|]. split; [exact A3|].
+        intros Hf. eapply cle_trans; [apply A4; exact Hf|exact R5].
+      * (* already lending: not exclusive (J10) *)
+        assert (Hex : excl (getth (ms cf) t) = false).
+        { assert (Hl0 : lend (getth (ms cf) u0) = S t) by (apply (proj2 (W5 u0 t)); split; [exact Ht|rewrite Elt; left; reflexivity]).
+          destruct (J10 _ W1 u0 t Hl0) as (_ & _ & _ & _ & He & _). exact He. }
+        unfold agreeh. rewrite R1, R2, R3, R4. split; [exact A1|]. split; [congruence|]. split; [exact A3|].
+        intros Hf. eapply cle_trans; [apply A4; exact Hf|exact R5].
     + cbn [cur gh lt rest okc]. exact Hrest.
-    + cbn [cur ro]. intros _. exact I.
-    + cbn [gh]. unfold g_lendout. cbn [g_bor]. rewrite Hnb. discriminate.
+    + cbn [gh lt]. intros _. right. left. discriminate.
     + intros u Hu. destruct (Nat.eq_dec u ch) as [->|Hne].
       * right. left. split; [exact Hsc|]. split; [exact L1|]. unfold g_init. rewrite Hbof. split.
-        -- unfold agree, g_childb; cbn [g_refs g_excl g_free g_fen]. rewrite L2, L3, L4. repeat split; auto. discriminate.
+        -- unfold agree, agreeh, g_childb; cbn [g_refs g_excl g_free g_fen]. rewrite L2, L3, L4. repeat split; auto. discriminate.
         -- intros _. rewrite L5. discriminate.
       * left. apply Hoth; [exact Hu|]. cbn [second]. intros [= E]. apply Hne. symmetry. exact E.
     + intros u Hu. destruct (Nat.eq_dec u t) as [->|Hut]; [congruence|]. destruct (Nat.eq_dec u ch) as [->|Huc]; [congruence|].
@@ -496,7 +489,7 @@ Proof.
            ++ destruct H2 as [H2|H2]; [congruence|exact H2].
         -- rewrite gettc_upd_ne by exact Hvt. reflexivity.
   - (* the scope ends for one scoped thread *)
-    destruct (W3 t Ht Hst) as (Hag & Hok & Hlt & Hbor). rewrite Hc, Hr in Hok. cbn [okc prog_ok] in Hok.
+    destruct (W3 t Ht Hst) as (Hag & Hok & Hbor). rewrite Hc, Hr in Hok. cbn [okc prog_ok] in Hok.
     destruct Hok as (Hin & Hrest).
     destruct (step_spec _ _ _ _ Hm) as (_ & _ & Hst' & Hlen & Hoth & Hlendt & Hspec). cbn [act_spec] in Hspec.
     destruct (joinb_spec _ _ _ _ Hm) as (Hct & Hcl & B1 & B2 & B3 & B4 & B5 & B6).
@@ -504,15 +497,22 @@ Proof.
     assert (Hsch : started (getth (ms cf) ch) = true).
     { destruct (started (getth (ms cf) ch)) eqn:E; [reflexivity|]. assert (Hch : ch < length (tc cf)) by congruence.
       destruct (W4 ch Hch E) as (_ & _ & _ & _ & E0). congruence. }
-    apply WT_update; [exact W| |exact Hlen|exact Ht|exact Hst'| | | | | | |].
+    apply WT_update; [exact W| |exact Hlen|exact Ht|exact Hst'| | | | | |].
     + eapply pres; eauto.
-    + cbn [gh]. eapply agree_same_local; eauto.
+    + cbn [gh lt].
+      assert (Hh : hid (lt (gettc cf t)) = 1) by (destruct (lt (gettc cf t)); [contradiction|reflexivity]).
+      rewrite Hh in Hag. pose proof (agree_same_local _ _ _ _ Hag Hspec) as Hag2.
+      destruct (List.remove Nat.eq_dec ch (lt (gettc cf t))) as [|u1 l1]; cbn [g_joinb hid]; [|exact Hag2].
+      (* the last loan ends: the lent handle is the lender's own again *)
+      destruct Hag2 as (A1 & A2 & A3 & A4). unfold agreeh, g_unhide; cbn [g_refs g_excl g_free g_fen]. rewrite setf_eq.
+      split; [lia|]. split; [exact A2|]. split; [exact A3|exact A4].
     + cbn [cur gh lt rest okc]. exact Hrest.
-    + cbn [cur ro]. intros _. exact I.
-    + cbn [gh]. rewrite Hlendt. intros Hb. destruct (Hbor Hb) as [Hl|(_ & Hf)]; [left; exact Hl|]. rewrite Hr in Hf. discriminate.
+    + cbn [gh lt]. destruct (List.remove Nat.eq_dec ch (lt (gettc cf t))) as [|u1 l1]; cbn [g_joinb].
+      * unfold g_unhide. cbn [g_bor]. rewrite setf_eq. discriminate.
+      * intros _. right. left. discriminate.
     + intros u Hu. destruct (Nat.eq_dec u ch) as [->|Hne].
       * right. right. split; [exact Hsch|]. split; [rewrite B6; exact Hsch|]. split; [exact Hfin|].
-        intros g (A1 & A2 & A3 & A4). unfold agree. rewrite B1, B2, B3, B4, B5. auto.
+        intros h g (A1 & A2 & A3 & A4). unfold agreeh. rewrite B1, B2, B3, B4, B5. auto.
       * left. apply Hoth; [exact Hu|]. cbn [second]. intros [= E]. apply Hne. symmetry. exact E.
     + intros u Hu. destruct (Nat.eq_dec u t) as [->|Hut]; [congruence|]. destruct (Nat.eq_dec u ch) as [->|Huc]; [congruence|].
       assert (E : getth s' u = getth (ms cf) u) by (apply Hoth; [exact Hut|cbn [second]; congruence]).
@@ -585,11 +585,13 @@ Proof.
   destruct (Mach.live s); discriminate.
 Qed.
 Lemma ok_release s t : Inv s -> t < length (ths s) -> started (getth s t) = true -> 0 < refs (getth s t) ->
-  mustfree (getth s t) = false -> lends_from s t = false -> exists s', step s t ARelease = Ok s'.
+  mustfree (getth s t) = false -> (lends_from s t = false \/ 2 <= refs (getth s t)) -> exists s', step s t ARelease = Ok s'.
 Proof.
   intros I Ht Hst Hr Hm Hlf. destruct (step s t ARelease) as [s'|e|] eqn:E; [eauto|exfalso; eapply safe; eauto|exfalso].
-  open_step E Ht Hst. destruct (Nat.ltb_spec 0 (refs (getth s t))); [|lia]. rewrite Hm, Hlf in E. cbn [negb orb] in E.
-  destruct (Mach.live s); discriminate.
+  open_step E Ht Hst. destruct (Nat.ltb_spec 0 (refs (getth s t))); [|lia]. rewrite Hm in E. cbn [negb orb] in E.
+  assert (Hg : lends_from s t && Nat.leb (refs (getth s t)) 1 = false).
+  { destruct Hlf as [->|H2]; [reflexivity|]. destruct (Nat.leb_spec (refs (getth s t)) 1); [lia|apply andb_false_r]. }
+  rewrite Hg in E. destruct (Mach.live s); discriminate.
 Qed.
 Lemma ok_free s t : Inv s -> t < length (ths s) -> started (getth s t) = true ->
   mustfree (getth s t) = true -> cle (pend (getth s t)) (clk (getth s t)) -> exists s', step s t AFree = Ok s'.
@@ -599,7 +601,7 @@ Proof.
   destruct (Mach.live s); cbn [negb] in E; [|discriminate]. destruct (_ && _); discriminate.
 Qed.
 Lemma ok_probe0 s t : Inv s -> t < length (ths s) -> started (getth s t) = true -> 0 < refs (getth s t) ->
-  lends_from s t = false -> exists s' m, nth_error (msgs s) 0 = Some m /\ step s t (AProbe 0) = Ok s'.
+  (lends_from s t = false \/ 2 <= refs (getth s t)) -> exists s' m, nth_error (msgs s) 0 = Some m /\ step s t (AProbe 0) = Ok s'.
 Proof.
   intros I Ht Hst Hr Hlf.
   assert (Hl : Mach.live s = true).
@@ -607,8 +609,10 @@ Proof.
     pose proof (total_ge (ths s) t). unfold getth in Hr. lia. }
   destruct (J1 s I Hl) as (Hne & _). destruct (msgs s) as [|m l] eqn:Hms; [contradiction|].
   destruct (step s t (AProbe 0)) as [s'|e|] eqn:E; [exists s', m; auto|exfalso; eapply safe; eauto|exfalso].
-  open_step E Ht Hst. destruct (Nat.ltb_spec 0 (refs (getth s t))); [|lia]. rewrite Hlf in E. cbn [negb orb] in E.
-  rewrite Hl, Hms in E. cbn in E. discriminate.
+  open_step E Ht Hst. destruct (Nat.ltb_spec 0 (refs (getth s t))); [|lia]. cbn [negb orb] in E.
+  assert (Hg : lends_from s t && Nat.leb (refs (getth s t)) 1 = false).
+  { destruct Hlf as [->|H2]; [reflexivity|]. destruct (Nat.leb_spec (refs (getth s t)) 1); [lia|apply andb_false_r]. }
+  rewrite Hg in E. rewrite Hl, Hms in E. cbn in E. discriminate.
 Qed.
 Lemma ok_fence s t : t < length (ths s) -> started (getth s t) = true -> exists s', step s t AFence = Ok s'.
 Proof.
@@ -636,8 +640,8 @@ Proof.
   destruct (Mach.live s); discriminate.
 Qed.
 
-Lemma ok_read_step s t g : Inv s -> t < length (ths s) -> started (getth s t) = true -> agree (getth s t) g ->
-  (g_bor g b0 = true -> lend (getth s t) <> 0) ->
+Lemma ok_read_step h s t g : Inv s -> t < length (ths s) -> started (getth s t) = true -> agreeh h (getth s t) g ->
+  (g_bor g b0 = true -> lend (getth s t) <> 0 \/ 0 < h) ->
   can_read g b0 -> exists s', read_step s t s'.
 Proof.
   intros I Ht Hst (A1 & A2 & A3 & A4) Hbl [Hr|[He|[(Hf & Hfen)|Hb]]].
@@ -646,7 +650,10 @@ Proof.
     destruct (J5 s I t He') as (_ & Hr1 & _). unfold T in Hr1.
     destruct (ok_read s t I Ht Hst) as (s' & E); [lia|]. exists s'. left. exact E.
   - destruct (ok_readm s t I Ht Hst) as (s' & E); [congruence|auto|]. exists s'. right. left. exact E.
-  - destruct (ok_readb s t I Ht Hst (Hbl Hb)) as (s' & E). exists s'. right. right. exact E.
+  - destruct (Hbl Hb) as [Hl|Hh].
+    + destruct (ok_readb s t I Ht Hst Hl) as (s' & E). exists s'. right. right. exact E.
+    + (* the lender itself, through the handle it has lent: it still holds it *)
+      destruct (ok_read s t I Ht Hst) as (s' & E); [lia|]. exists s'. left. exact E.
 Qed.
 
 Definition is_event (c : cmd unit) : Prop := match c with Ret _ | Unreachable => False | _ => True end.
@@ -655,24 +662,31 @@ Theorem typed_progress cf t :
   WT cf -> t < length (tc cf) -> started (getth (ms cf) t) = true -> is_event (cur (gettc cf t)) ->
   exists s' c' g', estep t (ms cf) (cur (gettc cf t)) (gh (gettc cf t)) s' c' g'.
 Proof.
-  intros [W1 W2 W3 W4 W5] Ht Hst Hev. destruct (W3 t Ht Hst) as (Hag & Hok & Hlt & Hbor).
+  intros [W1 W2 W3 W4 W5] Ht Hst Hev. destruct (W3 t Ht Hst) as (Hag & Hok & Hbor).
   assert (Ht' : t < length (ths (ms cf))) by congruence.
-  (* either nobody borrows from t, or t is running a read-only command (which never needs the right to write, release
-     or probe the shared buffer) *)
-  assert (Hlf : lends_from (ms cf) t = false \/ ro (cur (gettc cf t))).
-  { destruct (lt (gettc cf t)) eqn:E.
+  (* either nobody borrows from t, or t keeps the lent handle (one reference beyond its ghost) and is not exclusive *)
+  assert (Hlf : lends_from (ms cf) t = false \/ (hid (lt (gettc cf t)) = 1 /\ excl (getth (ms cf) t) = false)).
+  { destruct (lt (gettc cf t)) as [|u0 l0] eqn:E.
     - left. apply noborrowers_lends_from. intros u Hu. apply (proj1 (W5 u t)) in Hu. destruct Hu as (_ & Hin). rewrite E in Hin. exact Hin.
-    - right. apply Hlt. discriminate. }
-  assert (Hbl : g_bor (gh (gettc cf t)) b0 = true -> lend (getth (ms cf) t) <> 0).
-  { intros Hb. destruct (Hbor Hb) as [Hl|(Hf & _)]; [exact Hl|]. rewrite Hf in Hev. contradiction. }
-  set (s := ms cf) in *. set (g := gh (gettc cf t)) in *.
-  revert Hlf Hev Hok. generalize (cur (gettc cf t)). intros c0 Hlf Hev Hok.
+    - right. split; [reflexivity|].
+      assert (Hl0 : lend (getth (ms cf) u0) = S t) by (apply (proj2 (W5 u0 t)); split; [exact Ht|rewrite E; left; reflexivity]).
+      destruct (J10 _ W1 u0 t Hl0) as (_ & _ & _ & _ & He & _). exact He. }
+  assert (Hbl : g_bor (gh (gettc cf t)) b0 = true -> lend (getth (ms cf) t) <> 0 \/ 0 < hid (lt (gettc cf t))).
+  { intros Hb. destruct (Hbor Hb) as [Hl|[Hl|(Hf & _)]]; [left; exact Hl| |rewrite Hf in Hev; contradiction].
+    right. destruct (lt (gettc cf t)); [contradiction|cbn; lia]. }
+  set (s := ms cf) in *. set (g := gh (gettc cf t)) in *. set (h := hid (lt (gettc cf t))) in *.
+  (* a thread whose ghost is exclusive does not lend *)
+  assert (Hw : g_excl g b0 = true -> lends_from s t = false).
+  { intros He. destruct Hlf as [Hlf|(_ & Hex)]; [exact Hlf|]. destruct Hag as (_ & A2 & _). congruence. }
+  (* a thread that holds a handle of its own may release or probe: if it lends, the lent handle is a second reference *)
+  assert (Hrp : 0 < g_refs g b0 -> lends_from s t = false \/ 2 <= refs (getth s t)).
+  { intros Hr. destruct Hlf as [Hlf|(Hh & _)]; [left; exact Hlf|right]. destruct Hag as (A1 & _). lia. }
+  revert Hev Hok. generalize (cur (gettc cf t)). intros c0 Hev Hok.
   destruct c0 as [r| |n k|b o n k|b n k|b c k|b k|b a o k|b o k|o k|p off n k|p off bs k|p x y n k];
     cbn [is_event okc] in *; try contradiction.
   - (* alloc *) do 3 eexists. apply S_alloc_none.
   - (* realloc *) destruct Hok as (He & _). destruct (Nat.eq_dec b b0) as [->|Hne].
-    + destruct Hlf as [Hlf|Hro]; [|cbn [ro] in Hro; destruct Hro as (Hro & _); contradiction].
-      destruct (ok_write s t W1 Ht' Hst) as (s' & E); [destruct Hag as (_ & A2 & _); congruence|exact Hlf|].
+    + destruct (ok_write s t W1 Ht' Hst) as (s' & E); [destruct Hag as (_ & A2 & _); congruence|exact (Hw He)|].
       exists s', (k true), g. apply S_realloc. exact E.
     + exists s, (k true), g. apply S_realloc_o. exact Hne.
   - (* dealloc *) destruct Hok as (Hf & Hfen & _). destruct (Nat.eq_dec b b0) as [->|Hne].
@@ -680,27 +694,27 @@ Proof.
       destruct (ok_free s t W1 Ht' Hst) as (s' & E); [congruence|auto|]. do 3 eexists. apply S_dealloc. exact E.
     + do 3 eexists. apply S_dealloc_o. exact Hne.
   - (* hdr init *) destruct Hok as (He & _). destruct (Nat.eq_dec b b0) as [->|Hne].
-    + destruct Hlf as [Hlf|Hro]; [|cbn [ro] in Hro; destruct Hro as (Hro & _); contradiction].
-      destruct (ok_write s t W1 Ht' Hst) as (s' & E); [destruct Hag as (_ & A2 & _); congruence|exact Hlf|].
+    + destruct (ok_write s t W1 Ht' Hst) as (s' & E); [destruct Hag as (_ & A2 & _); congruence|exact (Hw He)|].
       do 3 eexists. apply S_hdrinit. exact E.
     + do 3 eexists. apply S_hdrinit_o. exact Hne.
   - (* hdr cap *) destruct Hok as (Hr & _). destruct (Nat.eq_dec b b0) as [->|Hne].
-    + destruct (ok_read_step s t g W1 Ht' Hst Hag Hbl Hr) as (s' & E). exists s', (k 0%N), g. apply S_hdrcap. exact E.
+    + destruct (ok_read_step h s t g W1 Ht' Hst Hag Hbl Hr) as (s' & E). exists s', (k 0%N), g. apply S_hdrcap. exact E.
     + exists s, (k 0%N), g. apply S_hdrcap_o. exact Hne.
   - (* rmw *) destruct a.
     + destruct Hok as (Hr & _). destruct (Nat.eq_dec b b0) as [->|Hne].
       * destruct Hr as [Hr|Hb].
         -- destruct Hag as (A1 & _). destruct (ok_clone_step s t W1 Ht' Hst) as (s' & E); [lia|]. do 3 eexists. apply S_inc. exact E.
-        -- destruct (ok_cloneb s t W1 Ht' Hst (Hbl Hb)) as (s' & E). do 3 eexists. apply S_inc_b. exact E.
+        -- destruct (Hbl Hb) as [Hl|Hh].
+           ++ destruct (ok_cloneb s t W1 Ht' Hst Hl) as (s' & E). do 3 eexists. apply S_inc_b. exact E.
+           ++ destruct Hag as (A1 & _). destruct (ok_clone_step s t W1 Ht' Hst) as (s' & E); [lia|]. do 3 eexists. apply S_inc. exact E.
       * exists s, (k 0%N), (g_inc g b). apply S_inc_o. exact Hne.
     + destruct Hok as (Hr & Hf & _). destruct (Nat.eq_dec b b0) as [->|Hne].
-      * destruct Hlf as [Hlf|Hro]; [|cbn [ro] in Hro; destruct Hro as (Hro & _); contradiction].
-        destruct Hag as (A1 & _ & A3 & _). destruct (ok_release s t W1 Ht' Hst) as (s' & E); [lia|congruence|exact Hlf|].
+      * destruct (ok_release s t W1 Ht' Hst) as (s' & E);
+          [destruct Hag as (A1 & _); lia|destruct Hag as (_ & _ & A3 & _); congruence|exact (Hrp Hr)|].
         do 3 eexists. apply S_dec. exact E.
       * exists s, (k 0%N), (g_dec g b 0%N). apply S_dec_o. exact Hne.
   - (* load *) destruct Hok as (Hr & _). destruct (Nat.eq_dec b b0) as [->|Hne].
-    + destruct Hlf as [Hlf|Hro]; [|cbn [ro] in Hro; destruct Hro as (Hro & _); contradiction].
-      destruct Hag as (A1 & _). destruct (ok_probe0 s t W1 Ht' Hst) as (s' & m & Hm & E); [lia|exact Hlf|].
+    + destruct (ok_probe0 s t W1 Ht' Hst) as (s' & m & Hm & E); [destruct Hag as (A1 & _); lia|exact (Hrp Hr)|].
       do 3 eexists. eapply S_load; eauto.
     + exists s, (k 0%N), (g_load g b 0%N). apply S_load_o. exact Hne.
   - (* fence *) destruct (acq o) eqn:Ha.
@@ -708,17 +722,15 @@ Proof.
     + do 3 eexists. apply S_fence_no. exact Ha.
   - (* read *) destruct p as [b|sid].
     + destruct Hok as (Hr & _). destruct (Nat.eq_dec b b0) as [->|Hne].
-      * destruct (ok_read_step s t g W1 Ht' Hst Hag Hbl Hr) as (s' & E). exists s', (k []), g. apply S_read. exact E.
+      * destruct (ok_read_step h s t g W1 Ht' Hst Hag Hbl Hr) as (s' & E). exists s', (k []), g. apply S_read. exact E.
       * exists s, (k []), g. apply S_read_o. exact Hne.
     + exists s, (k []), g. apply S_read_static.
   - (* write *) destruct p as [b|sid]; [|contradiction]. destruct Hok as (He & _). destruct (Nat.eq_dec b b0) as [->|Hne].
-    + destruct Hlf as [Hlf|Hro]; [|cbn [ro] in Hro; destruct Hro as (Hro & _); contradiction].
-      destruct (ok_write s t W1 Ht' Hst) as (s' & E); [destruct Hag as (_ & A2 & _); congruence|exact Hlf|].
+    + destruct (ok_write s t W1 Ht' Hst) as (s' & E); [destruct Hag as (_ & A2 & _); congruence|exact (Hw He)|].
       do 3 eexists. apply S_write. exact E.
     + do 3 eexists. apply S_write_o. exact Hne.
   - (* move *) destruct p as [b|sid]; [|contradiction]. destruct Hok as (He & _). destruct (Nat.eq_dec b b0) as [->|Hne].
-    + destruct Hlf as [Hlf|Hro]; [|cbn [ro] in Hro; destruct Hro as (Hro & _); contradiction].
-      destruct (ok_write s t W1 Ht' Hst) as (s' & E); [destruct Hag as (_ & A2 & _); congruence|exact Hlf|].
+    + destruct (ok_write s t W1 Ht' Hst) as (s' & E); [destruct Hag as (_ & A2 & _); congruence|exact (Hw He)|].
       do 3 eexists. apply S_move. exact E.
     + do 3 eexists. apply S_move_o. exact Hne.
 Qed.
@@ -739,7 +751,7 @@ Proof.
   { intros t. destruct (started (getth (ms cf) t)) eqn:Hst.
     - destruct (Nat.lt_ge_cases t (length (tc cf))) as [Ht|Ht].
       + destruct (W3 t Ht Hst) as ((A1 & _ & A3 & _) & Hok & _). destruct (Hfin t Ht Hst) as (Hc & Hr).
-        rewrite Hc, Hr in Hok. cbn [okc prog_ok] in Hok. destruct Hok as (_ & R0 & F0). split; congruence.
+        rewrite Hc, Hr in Hok. cbn [okc prog_ok] in Hok. destruct Hok as (L0 & R0 & F0). rewrite L0 in A1. cbn [hid] in A1. split; [lia|congruence].
       + unfold getth in Hst. rewrite nth_overflow in Hst by lia. discriminate.
     - destruct (J8 _ W1 t Hst) as (R0 & M0 & _). auto. }
   destruct (Mach.live (ms cf)) eqn:Hl; [exfalso|reflexivity].
@@ -757,17 +769,17 @@ Definition own_plus_rest (g : ghost) (c c' : cmd unit) : Prop :=
   | Rmw b add o k => b = b0 -> exists v, c' = k v /\ (N.of_nat (g_refs g b0) <= v)%N
   | _ => True
   end.
-Lemma estep_value_ge_own t s c g s' c' g' :
-  Inv s -> agree (getth s t) g -> estep t s c g s' c' g' -> own_plus_rest g c c'.
+Lemma estep_value_ge_own h t s c g s' c' g' :
+  Inv s -> agreeh h (getth s t) g -> estep t s c g s' c' g' -> own_plus_rest g c c'.
 Proof.
   intros I (A1 & _) Hstep. destruct Hstep; cbn [own_plus_rest]; auto; try (intros E; congruence).
-  - intros _. eexists. split; [reflexivity|]. rewrite <- A1.
+  - intros _. eexists. split; [reflexivity|].
     pose proof (rmw_value_ge_refs s t AClone s' I (or_introl eq_refl) H). lia.
-  - intros _. eexists. split; [reflexivity|]. rewrite <- A1.
+  - intros _. eexists. split; [reflexivity|].
     pose proof (rmw_value_ge_refs s t ACloneB s' I (or_intror (or_introl eq_refl)) H). lia.
-  - intros _. eexists. split; [reflexivity|]. rewrite <- A1.
+  - intros _. eexists. split; [reflexivity|].
     pose proof (rmw_value_ge_refs s t ARelease s' I (or_intror (or_intror eq_refl)) H). lia.
-  - intros _. eexists. split; [reflexivity|]. rewrite <- A1.
+  - intros _. eexists. split; [reflexivity|].
     pose proof (probe_value_ge_refs s t p m s' I H0 H). lia.
 Qed.
 Theorem typed_values_ge_own cf0 cf t s' c' g' :
